@@ -36,7 +36,7 @@ def gen_sched(rng, n_cmds=None):
     time only one origin has events due, hence one sequential task and a schedule-independent log."""
     n_cmds = n_cmds or rng.randint(4, 14)
     case = {"models": [model_sched(rng)], "sinks": [("buf", 64)], "mode": "seq", "tags": set(),
-            "t0": rng.choice([0, 0, 10, 1000])}
+            "t0": rng.choice([0, 0, 10, 1000, -2000000000, -1500000010])}   # start times before the epoch are legal
     t0 = case["t0"]
     cmds = []
     val = 0
